@@ -35,7 +35,7 @@ def run_check(prop, tier, rule, assumptions, mc_runs, groups, prefixes, sig_of, 
                 kinds.append(kk)
                 rep.sample(r, limit=12)
         wd = core.scratch("%s_%d" % (prop.lower(), gi))
-        bad, jr = core.judge(jm, rs, wd)
+        bad, jr = core.judge(jm, rs, wd, unjudgeable=prefixes[0] + "_unjudgeable")
         rep.add_tlc(jm, jr, counts_as_model=False)
         rep.traces += len(rs)
         byid = {r["id"]: r for r in rs}
